@@ -101,6 +101,7 @@ type BCtx struct {
 	Upper   map[string]int64 // atom -> known upper bound
 	parity  map[string]int   // atom -> known parity
 	global  []Lin            // facts L >= 0 valid everywhere in the function (definitions)
+	minArgs map[string][]Lin // atom of a min(...) result -> its arguments
 	// Assume lets a property add facts established by another rule (field invariants).
 	Assume func(c *BCtx)
 }
@@ -192,6 +193,16 @@ func (c *BCtx) storedPrefix(ac string) bool {
 		if s != "" && strings.HasPrefix(ac, s) && strings.HasPrefix(s, "&") {
 			return true
 		}
+	}
+	return false
+}
+
+func isSliceOrString(t types.Type) bool {
+	switch u := t.Underlying().(type) {
+	case *types.Slice:
+		return true
+	case *types.Basic:
+		return u.Info()&types.IsString != 0
 	}
 	return false
 }
@@ -409,8 +420,12 @@ func (c *BCtx) definitions() {
 					add(ln.Add(self, -1).Add(konst(1), -1)) // r < len
 					c.Lower[x.Name()] = -1
 				case "builtin.min":
+					if c.minArgs == nil {
+						c.minArgs = map[string][]Lin{}
+					}
 					for _, a := range x.Call.Args {
 						add(c.Lin(a).Add(self, -1)) // r <= a
+						c.minArgs[x.Name()] = append(c.minArgs[x.Name()], c.Lin(a))
 					}
 					lb, ok := int64(0), true
 					for i, a := range x.Call.Args {
@@ -732,11 +747,13 @@ func (c *BCtx) factDNF(b *ssa.BasicBlock, depth int) []conj {
 		if depth == 0 {
 			return []conj{domConj(blk, nil)}
 		}
-		var phis []*ssa.Phi
+		var phis, sphis []*ssa.Phi
 		for _, in := range blk.Instrs {
 			if ph, ok := in.(*ssa.Phi); ok {
 				if isIntType(ph.Type()) {
 					phis = append(phis, ph)
+				} else if isSliceOrString(ph.Type()) {
+					sphis = append(sphis, ph)
 				}
 			} else {
 				break
@@ -766,6 +783,16 @@ func (c *BCtx) factDNF(b *ssa.BasicBlock, depth int) []conj {
 					e := c.Lin(ph.Edges[k]).Rename(ren)
 					self := atomL(ph.Name())
 					if e.OK {
+						cj.facts = append(cj.facts, self.Add(e, -1), e.Add(self, -1))
+					}
+				}
+				for _, ph := range sphis {
+					if ph.Edges[k] == ssa.Value(ph) {
+						continue
+					}
+					e := c.LenOf(ph.Edges[k]).Rename(ren)
+					self := c.LenOf(ph)
+					if e.OK && self.OK {
 						cj.facts = append(cj.facts, self.Add(e, -1), e.Add(self, -1))
 					}
 				}
@@ -843,6 +870,22 @@ func (c *BCtx) proveIn(goal Lin, facts []Lin) bool {
 				if c.trivially(goal.Add(facts[i], -m[0]).Add(facts[j], -m[1])) {
 					return true
 				}
+			}
+		}
+	}
+	// a goal with a positive min(...) atom holds if it holds for each argument substituted
+	for a, co := range goal.C {
+		if args, ok := c.minArgs[a]; ok && co > 0 {
+			all := true
+			for _, arg := range args {
+				g2 := goal.Add(atomL(a).Scale(co), -1).Add(arg.Scale(co), 1)
+				if !c.proveIn(g2, facts) {
+					all = false
+					break
+				}
+			}
+			if all {
+				return true
 			}
 		}
 	}
